@@ -907,6 +907,9 @@ func (b *BaseStore) LoadFromSnapshot(ctx context.Context) error {
 		}
 	}
 
+	// the entries are in the log: the progress follows, as it does after a load or a merge
+	b.recalculateReplicationStatus(maxClock)
+
 	if err := b.updateIndex(ctx); err != nil {
 		return fmt.Errorf("unable to update index: %w", err)
 	}
